@@ -28,6 +28,7 @@ void World::failNow(const std::string &monitor, const std::string &family,
     fail.monitor = monitor;
     fail.family = family;
     fail.detail = detail;
+    if (!desc.str().empty()) fail.detail += " | step: " + desc.str();
     fail.step = cur_step;
 }
 
@@ -340,8 +341,26 @@ EdgeSlot* World::newEdge(int client, int forest)
     s->forest = forest;
     s->e = new dd_edge(forest >= 0 ? forests[forest].f : nullptr);
     s->born = uint64_t(cur_step);
+    s->id = next_edge_id++;
     edges.push_back(s);
     return s;
+}
+
+std::string World::fn(int fi) const
+{
+    if (fi < 0) return "F-";
+    const ForRT &F = forests[size_t(fi)];
+    std::ostringstream o;
+    static const char* rn[] = { "fully", "quasi", "ident" };
+    o << "F" << fi << "<" << fkName(F.kind()) << (F.spec.rel ? " rel " : " set ") << rn[F.spec.red % 3] << ">";
+    return o.str();
+}
+
+std::string World::en(const EdgeSlot &e) const
+{
+    std::ostringstream o;
+    o << "e" << e.id << "@F" << e.forest;
+    return o.str();
 }
 
 void World::dropEdge(size_t idx)
